@@ -14,11 +14,26 @@ from .trace import validate
 LABELS = None
 
 
+class NonDyadic(Exception):
+    """every input score is a multiple of 1/8 (tags, dependencies, penalty), so every sum the search forms is one too; a value
+    that is not cannot be a model score / priority of the given model"""
+
+
+# properties whose statements are about the scores themselves: a non-dyadic value is a rejected event for them; the other
+# properties of the family are judged on the trees alone (scores rounded, priorities dropped)
+SCORE_PROPS = ('C01', 'C09', 'C10')
+_strict = [True]
+
+
 def _exact8(x, what):
     v = x * 8.0
     r = int(round(v))
-    if abs(v - r) > 1e-6 or abs(r) > 2 ** 28:
-        raise Machinery('score %r (%s) is not an exact multiple of 1/8: harness numeric discipline broken' % (x, what))
+    if abs(r) > 2 ** 28:
+        raise Machinery('score %r (%s) out of the representable range' % (x, what))
+    if abs(v - r) > 1e-6:
+        if _strict[0]:
+            raise NonDyadic('%s %r is not a sum of the given scores (all multiples of 1/8)' % (what, x))
+        return r
     return r
 
 
@@ -165,16 +180,33 @@ def run_instance(h, g, n, tag8, dep8, cfg, eid):
     tag = np.array(tag8, dtype=np.float32) / 8
     dep = np.array(dep8, dtype=np.float32) / 8
     beta = math.exp(-cfg['b16'] / 16.0)
-    h.rt.pops_clear()
+    kw = dict(unary_penalty=cfg['pen8'] / 8.0, beta=beta, use_beta=cfg['usebeta'], pruning_size=cfg['prune'],
+              nbest=cfg['k'], max_step=cfg['maxstep'], max_length=250)
+    decoy = cfg.get('decoy')
+    cfg = {k: v for k, v in cfg.items() if k != 'decoy'}
     try:
-        res = h.parsing.run([toks], [ScoringResult(tag.copy(), dep.copy())], list(lex), list(g['roots']), g['bin'], g['un'],
-                            unary_penalty=cfg['pen8'] / 8.0, beta=beta, use_beta=cfg['usebeta'], pruning_size=cfg['prune'],
-                            nbest=cfg['k'], max_step=cfg['maxstep'], max_length=250)[0]
+        if decoy:
+            # the sentence is the second one of a call: another sentence (same grammar, same options) is parsed before it in
+            # the same call.  The pops of the first sentence are counted on a call of its own (searches are deterministic).
+            dn, dtag8, ddep8 = decoy
+            dtoks = [Token.of_word('d%d' % i) for i in range(dn)]
+            dsc = lambda: ScoringResult(np.array(dtag8, dtype=np.float32) / 8, np.array(ddep8, dtype=np.float32) / 8)
+            h.rt.pops_clear()
+            h.parsing.run([dtoks], [dsc()], list(lex), list(g['roots']), g['bin'], g['un'], **kw)
+            n_d = len(h.rt.pops())
+            h.rt.pops_clear()
+            res = h.parsing.run([dtoks, toks], [dsc(), ScoringResult(tag.copy(), dep.copy())], list(lex), list(g['roots']), g['bin'], g['un'], **kw)[1]
+            pops = h.rt.pops()[n_d:]
+        else:
+            h.rt.pops_clear()
+            res = h.parsing.run([toks], [ScoringResult(tag.copy(), dep.copy())], list(lex), list(g['roots']), g['bin'], g['un'], **kw)[0]
+            pops = h.rt.pops()
     except Exception as e:
         # well-formed input: the search neither returned trees nor the failure placeholder
         raise ParserRaised(repr(e)[:300])
-    pops = h.rt.pops()
     prios = [_exact8(p['in'] + p['out'], 'priority') for p in pops[:4000]]
+    if not _strict[0] and any(abs((p['in'] + p['out']) * 8.0 - round((p['in'] + p['out']) * 8.0)) > 1e-6 for p in pops[:4000]):
+        prios = []
     failed = len(res) >= 1 and res[0].score == -float('inf')
     ph = {'n': len(res), 'neginf': False, 'leaf': False}
     trees = []
@@ -200,7 +232,7 @@ def run_instance(h, g, n, tag8, dep8, cfg, eid):
           'b16': cfg['b16'], 'uniform': g['uniform'], 'words': [t.word for t in toks], 'failed': failed, 'ph': ph, 'trees': trees,
           'prios': prios, 'npops': len(pops), 'maxstep': cfg['maxstep']}
     meta = {'grammar': g['kind'], 'N': n, 'lexicon': [str(c) for c in lex], 'categories': [str(c) for c in allc], 'roots': [str(c) for c in g['roots']],
-            'tag_x8': tag8, 'dep_x8': dep8, 'config': cfg, 'failed': failed, 'pops': len(pops),
+            'tag_x8': tag8, 'dep_x8': dep8, 'config': cfg, 'second_sentence_of_a_call_after': decoy, 'failed': failed, 'pops': len(pops),
             'result': [(t['score'], tree_text(t['tree'])) for t in trees]}
     return ev, meta
 
@@ -253,6 +285,10 @@ def make_specs(prop, tier, rng):
                 elif mode == 2:
                     keep = rng.randrange(len(tag8[i]))
                     tag8[i] = [(v if j == keep or rng.random() < 0.3 else -32768) for j, v in enumerate(tag8[i])]
+        if rng.random() < 0.25:
+            dn = rng.choice([1, 2, 3])
+            dt, dd = make_scores(rng, dn, len(g['lex']), 'small')
+            cfg = dict(cfg, decoy=(dn, dt, dd))
         specs.append((g, n, tag8, dep8, cfg))
     return specs
 
@@ -260,7 +296,8 @@ def make_specs(prop, tier, rng):
 def hang_event(spec, eid):
     g, n, tag8, dep8, cfg = spec
     return {'grammar': g['kind'], 'N': n, 'lexicon': [str(c) for c in g['lex']], 'categories': [str(c) for c in g['allc']], 'roots': [str(c) for c in g['roots']],
-            'tag_x8': tag8, 'dep_x8': dep8, 'config': cfg, 'failed': None, 'pops': None, 'result': 'SEARCH DID NOT TERMINATE'}
+            'tag_x8': tag8, 'dep_x8': dep8, 'config': {k: v for k, v in cfg.items() if k != 'decoy'}, 'second_sentence_of_a_call_after': cfg.get('decoy'),
+            'failed': None, 'pops': None, 'result': 'SEARCH DID NOT TERMINATE'}
 
 
 def run_specs_parallel(specs, name, stall_s=120):
@@ -290,6 +327,10 @@ def run_specs_parallel(specs, name, stall_s=120):
                         g, n, tag8, dep8, cfg = specs[i]
                         try:
                             ev, meta = run_instance(h, g, n, tag8, dep8, cfg, i + 1)
+                        except NonDyadic as e:
+                            f.write(json.dumps({'raised': i, 'why': 'nondyadic: ' + str(e)}, ensure_ascii=True) + '\n')
+                            f.flush()
+                            continue
                         except ParserRaised as e:
                             f.write(json.dumps({'raised': i, 'why': str(e)}, ensure_ascii=True) + '\n')
                             f.flush()
@@ -331,7 +372,7 @@ def run_specs_parallel(specs, name, stall_s=120):
                         i = r['raised']
                         if i in pending[w]:
                             pending[w].remove(i)
-                            hangs.append((i, 'parser raised: ' + r['why']))
+                            hangs.append((i, r['why'] if r['why'].startswith('nondyadic') else 'parser raised: ' + r['why']))
                         cur = None
                     elif 'crash' in r:
                         raise Machinery('parser worker crashed: %s' % r['crash'])
@@ -380,6 +421,7 @@ def run_family(prop, tier):
     substrate.load()
     t_gen = time.time()
     specs = make_specs(prop, tier, rng)
+    _strict[0] = prop in SCORE_PROPS
     events, metas, hangs = run_specs_parallel(specs, prop.lower())
     kinds = {}
     for e_i, sp in enumerate(specs):
@@ -409,8 +451,9 @@ def run_family(prop, tier):
     for (i, why) in hangs:
         m = hang_event(specs[i], i + 1)
         m['hang'] = why
-        m['result'] = why if why.startswith('parser raised') else m['result']
-        clause = '.search_raised_on_wellformed_input' if why.startswith('parser raised') else '.search_did_not_terminate'
+        m['result'] = why if why.startswith(('parser raised', 'nondyadic')) else m['result']
+        clause = ('.search_raised_on_wellformed_input' if why.startswith('parser raised') else
+                  '.score_not_a_sum_of_the_given_scores' if why.startswith('nondyadic') else '.search_did_not_terminate')
         viols.append(Violation(prop, prop + clause, '%s N=%d tag=%s dep=%s cfg=%s' % (m['grammar'], m['N'], m['tag_x8'], m['dep_x8'], sorted(m['config'].items())), m))
     other = {}
     for (i, clause) in rejects:
@@ -480,6 +523,7 @@ def design_conformance(tier, rng):
     from .common import scratch
     from .tlc import run_tlc, require_clean, write_ndjson
     h = substrate.load()
+    _strict[0] = False          # a statistic: values that are not multiples of 1/8 are rounded, the deviation shows as a DESIGN clause
     ngroups = 10 if tier == 'quick' else 80
     per_group = 25 if tier == 'quick' else 60
     d = scratch('astartrace')
